@@ -119,12 +119,11 @@ package engine
 // ---- RelationManager: trusted interface contracts (what the engine relies on) ----
 
 //@ ghost var txn int
-//@ ghost var storeState int
 
 //@ iface (rm RelationManager) StartTxn()
 //@   props C13
 //@   trusted
-//@   requires txn == 0
+//@   requires txn == 0 && nonNilPtr(rm)
 //@   modifies txn
 //@   ensures txn == 1
 
@@ -300,16 +299,15 @@ package engine
 
 // ---- statements (C05 C13 C14 C18) ----
 
-
 //@ func EvaluateSelect(q sql.Select, rm RelationManager) ([]*storage.Row, []*storage.Field, error)
 //@   props C05 C13 C18
-//@   requires txn == 0 && rm != nil && sql.selWF(q)
+//@   requires txn == 0 && nonNilPtr(rm) && sql.selWF(q)
 //@   modifies txn, storeState, all(storage.Row.Vals), all(storage.Field.Column), allelems(any), allelems(*storage.Row)
 //@   ensures[unlock; C13 C18] txn == 0
 
 //@ func EvaluateInsert(q sql.InsertStatement, rm RelationManager) (int, error)
 //@   props C01 C02 C13 C14 C18
-//@   requires txn == 0 && rm != nil && typeof(q.InsertColumnsAndSource.QueryExpression) == typ(sql.TableValueConstructor)
+//@   requires txn == 0 && nonNilPtr(rm) && typeof(q.InsertColumnsAndSource.QueryExpression) == typ(sql.TableValueConstructor)
 //@   modifies txn, storeState
 //@   ensures[unlock; C13 C18] txn == 0
 //@   loop 1 invariant txn == 1 && (batch == nil || fresh(batch)) && count == rangeindex + 1
@@ -317,7 +315,7 @@ package engine
 
 //@ func EvaluateDelete(q sql.DeleteStatementSearched, rm RelationManager) (int, error)
 //@   props C01 C02 C13 C14 C18
-//@   requires txn == 0 && rm != nil && (q.WhereClause == nil || typeof(q.WhereClause) == typ(sql.WhereClause))
+//@   requires txn == 0 && nonNilPtr(rm) && (q.WhereClause == nil || typeof(q.WhereClause) == typ(sql.WhereClause))
 //@   modifies txn, storeState
 //@   ensures[unlock; C13 C18] txn == 0
 //@   loop 1 invariant txn == 1 && (batch == nil || fresh(batch))
@@ -325,9 +323,42 @@ package engine
 
 //@ func EvaluateUpdate(q sql.UpdateStatementSearched, rm RelationManager) error
 //@   props C01 C02 C13 C14 C18
-//@   requires txn == 0 && rm != nil && (q.Where == nil || typeof(q.Where) == typ(sql.WhereClause))
+//@   requires txn == 0 && nonNilPtr(rm) && (q.Where == nil || typeof(q.Where) == typ(sql.WhereClause))
 //@   modifies txn, storeState
 //@   ensures[unlock; C13 C18] txn == 0
 //@   loop 1 invariant txn == 1
 //@   loop 2 invariant txn == 1 && (cols == nil || fresh(cols)) && (updateSrc == nil || fresh(updateSrc))
 //@   loop 3 invariant txn == 1 && (batch == nil || fresh(batch))
+
+//@ func EvaluateCreateTable(q sql.CreateTable, rm RelationManager) error
+//@   props C13 C14 C18
+//@   requires txn == 0 && nonNilPtr(rm)
+//@   requires sql.colTypesOK(q.Elements)
+//@   modifies storeState
+//@   ensures[unlock; C13] txn == 0
+//@   loop 1 invariant r != nil && (r.Fields == nil || fresh(r.Fields))
+
+//@ func EvaluateCreateDatabase(q sql.CreateDatabase) error
+//@   props C17 C18
+//@   modifies storeState, openStores
+//@   ensures openStores == old(openStores)
+
+//@ func EvaluateShowDatabase(q sql.ShowDatabase) ([]*storage.Row, []*storage.Field, error)
+//@   props C17 C18
+//@   modifies storeState
+
+//@ func printTable(rows []*storage.Row, fields []*storage.Field)
+//@   trusted
+//@   modifies nothing
+
+// ---- session (C17 C18) ----
+
+//@ spec pred sessInv(s *Session) { (s.CurDB != "" ==> s.RelationService != nil) && openStores == (s.RelationService != nil ? 1 : 0) }
+
+//@ func (s *Session) ExecQuery(q string) error
+//@   props C17 C18 C13
+//@   requires txn == 0 && sessInv(s)
+//@   modifies s.CurDB, s.RelationService, txn, storeState, openStores, listLen, listAt, listPos, listOf, all(storage.Row.Vals), all(storage.Field.Column), allelems(any), allelems(*storage.Row)
+//@   ensures[unlock; C13] txn == 0
+//@   ensures[inv; C17 C18] sessInv(s)
+//@   ensures[errorframe; C17] result != nil && openStores == old(openStores) ==> s.CurDB == old(s.CurDB) && s.RelationService == old(s.RelationService)
